@@ -1,4 +1,4 @@
-CONSTANTS Peers = {s1}  Probe = probe  LogInAcceptLoop = FALSE  HeadFromWaitStart = FALSE
+CONSTANTS Peers = {s1}  Probe = probe  LogInAcceptLoop = FALSE  HeadFromWaitStart = FALSE  NoMitmWaitLimit = FALSE
 INIT Init
 NEXT GenNext
 CONSTRAINT EmitOnce
